@@ -230,6 +230,9 @@ SPECIAL = [
     ("nested-inherit-sibling-names", "{\n  pname = \"a\";\n  version = \"1\";\n  passthru = {\n    inherit version;\n  };\n}",
      [("set", "passthru.pname", '"other"'), ("rm", "passthru.pname"), ("set", "passthru.version", '"2"'), ("rm", "passthru.version"),
       ("set", "passthru.zz", "1"), ("set", "pname", '"b"')]),
+    # a quoted (non-identifier) segment followed by bare ones
+    ("quoted-then-bare", "{\n  \"q-r\" = {\n    k = 1;\n    j = {\n      i = 2;\n    };\n  };\n  a = 1;\n}",
+     [("rm", '"q-r".k'), ("set", '"q-r".k', "2"), ("set", '"q-r".zz', "3"), ("rm", '"q-r".j.i'), ("set", '"q-r".j.i', "4"), ("set", '"q-r".j.h', "5")]),
     ("quoted-dot-existing", "{\n  \"a.b\" = {\n    d = 1;\n  };\n  a.b.d = 2;\n}",
      [("set", '"a.b".d', "7"), ("set", "a.b.d", "7"), ("rm", '"a.b".d'), ("rm", "a.b.d"), ("set", '"a.b".c', "2")]),
 ]
